@@ -386,8 +386,11 @@ pub fn ack_truthful(ex: &Execution, st: &mut AckStats) -> (Vec<String>, u64) {
                         && e.seq < r.ret
                         && matches!(e.op, Op::MapGet | Op::MapRemove)
                 });
-                let explained = if ex.exec.is_some() {
-                    // E1: exact attribution through the hook event log
+                let strictly_serial = ex.exec.as_ref().map(|e| e.blocked_events == 0).unwrap_or(false);
+                let explained = if strictly_serial {
+                    // E1 (one thread at a time throughout): exact attribution through the hook event
+                    // log.  If a worker was presumed blocked, two threads may have overlapped and the
+                    // event order is no longer exact: the conservative rule below is used instead
                     match miss {
                         Some((_, e)) => holds
                             .iter()
